@@ -105,6 +105,13 @@ pub fn plan_gather(ctx: &ExecutionContext, sql: &str) -> Result<GatherPlan> {
     let mut required: BTreeMap<String, Option<BTreeSet<String>>> = BTreeMap::new();
     collect_scans(ctx, &plan, &mut required)?;
 
+    // The statement is re-bound, as written, over the gathered tables. The
+    // optimized plan no longer contains everything the text mentions — a CTE
+    // nothing references, a predicate folded to a constant — yet the binder
+    // still resolves those names. Close the set over the text; see
+    // `close_over_statement_text`.
+    close_over_statement_text(ctx, sql, &mut required);
+
     if required.is_empty() {
         return Err(QueryError::NotImplemented(
             "the statement references no base table, so there is nothing to distribute; \
@@ -241,10 +248,173 @@ fn collect_scans(
         return Ok(());
     }
 
+    // Subqueries the optimizer did not turn into joins stay behind as
+    // EXPRESSIONS (`EXISTS`, `IN`, scalar) whose plans are not children of any
+    // node. Their scans are scans of this statement all the same: a table
+    // reached only through one must be gathered too, or the re-bound statement
+    // fails with "table not found" — or, worse, evaluates the subquery over a
+    // table that is missing the column it filters on.
+    let mut nested: Vec<std::sync::Arc<LogicalPlan>> = Vec::new();
+    for e in node_exprs(plan) {
+        collect_subquery_plans(e, &mut nested);
+    }
+    for sub in &nested {
+        collect_scans(ctx, sub, required)?;
+    }
+
     for child in plan.children() {
         collect_scans(ctx, child, required)?;
     }
     Ok(())
+}
+
+/// The expressions a plan node evaluates itself (not those of its children).
+fn node_exprs(plan: &LogicalPlan) -> Vec<&crate::planner::Expr> {
+    match plan {
+        LogicalPlan::Scan(n) => n.filter.iter().collect(),
+        LogicalPlan::Filter(n) => vec![&n.predicate],
+        LogicalPlan::Project(n) => n.exprs.iter().collect(),
+        LogicalPlan::Join(n) => n
+            .on
+            .iter()
+            .flat_map(|(l, r)| [l, r])
+            .chain(n.filter.iter())
+            .collect(),
+        LogicalPlan::Aggregate(n) => n.group_by.iter().chain(n.aggregates.iter()).collect(),
+        LogicalPlan::Window(n) => n
+            .window_exprs
+            .iter()
+            .flat_map(|(_, w)| {
+                w.args
+                    .iter()
+                    .chain(w.partition_by.iter())
+                    .chain(w.order_by.iter().map(|o| &o.expr))
+            })
+            .collect(),
+        LogicalPlan::Sort(n) => n.order_by.iter().map(|o| &o.expr).collect(),
+        LogicalPlan::DelimJoin(n) => n
+            .on
+            .iter()
+            .flat_map(|(l, r)| [l, r])
+            .chain(n.delim_columns.iter())
+            .collect(),
+        LogicalPlan::Values(n) => n.values.iter().flatten().collect(),
+        _ => Vec::new(),
+    }
+}
+
+/// Every subquery plan embedded in `e`, at any depth of the expression.
+fn collect_subquery_plans(e: &crate::planner::Expr, out: &mut Vec<std::sync::Arc<LogicalPlan>>) {
+    use crate::planner::Expr;
+    match e {
+        Expr::ScalarSubquery(p) => out.push(p.clone()),
+        Expr::Exists { subquery, .. } => out.push(subquery.clone()),
+        Expr::InSubquery { expr, subquery, .. } => {
+            collect_subquery_plans(expr, out);
+            out.push(subquery.clone());
+        }
+        Expr::BinaryExpr { left, right, .. } => {
+            collect_subquery_plans(left, out);
+            collect_subquery_plans(right, out);
+        }
+        Expr::UnaryExpr { expr, .. } | Expr::Cast { expr, .. } | Expr::Alias { expr, .. } => {
+            collect_subquery_plans(expr, out)
+        }
+        Expr::Aggregate { args, .. } | Expr::ScalarFunc { args, .. } => {
+            for a in args {
+                collect_subquery_plans(a, out);
+            }
+        }
+        Expr::Case {
+            operand,
+            when_then,
+            else_expr,
+        } => {
+            if let Some(o) = operand {
+                collect_subquery_plans(o, out);
+            }
+            for (w, t) in when_then {
+                collect_subquery_plans(w, out);
+                collect_subquery_plans(t, out);
+            }
+            if let Some(el) = else_expr {
+                collect_subquery_plans(el, out);
+            }
+        }
+        Expr::InList { expr, list, .. } => {
+            collect_subquery_plans(expr, out);
+            for i in list {
+                collect_subquery_plans(i, out);
+            }
+        }
+        Expr::Between {
+            expr, low, high, ..
+        } => {
+            collect_subquery_plans(expr, out);
+            collect_subquery_plans(low, out);
+            collect_subquery_plans(high, out);
+        }
+        Expr::WindowFunction(w) => {
+            for a in w.args.iter().chain(w.partition_by.iter()) {
+                collect_subquery_plans(a, out);
+            }
+            for o in &w.order_by {
+                collect_subquery_plans(&o.expr, out);
+            }
+        }
+        Expr::Column(_) | Expr::Literal(_) | Expr::Wildcard | Expr::QualifiedWildcard(_) => {}
+    }
+}
+
+/// Widen `required` to everything the statement TEXT can make the binder look
+/// up: every catalog table whose name appears as a word of the statement, and,
+/// for each gathered table with a pruned column list, every column whose name
+/// appears as a word. Purely additive — over-gathering is safe, and a name that
+/// merely collides with an alias costs one extra column, never a wrong answer.
+fn close_over_statement_text(
+    ctx: &ExecutionContext,
+    sql: &str,
+    required: &mut BTreeMap<String, Option<BTreeSet<String>>>,
+) {
+    use sqlparser::tokenizer::{Token, Tokenizer};
+    let dialect = sqlparser::dialect::GenericDialect {};
+    let Ok(tokens) = Tokenizer::new(&dialect, sql).tokenize() else {
+        return;
+    };
+    let words: Vec<String> = tokens
+        .into_iter()
+        .filter_map(|t| match t {
+            Token::Word(w) => Some(w.value),
+            _ => None,
+        })
+        .collect();
+    let mentioned = |name: &str| words.iter().any(|w| w.eq_ignore_ascii_case(name));
+
+    for table in ctx.table_names() {
+        if !required.contains_key(&table) && mentioned(&table) {
+            // Named in the text but absent from the plan (an unreferenced CTE
+            // body, a pruned branch): start from no columns; the loop below
+            // adds the mentioned ones.
+            required.insert(table, Some(BTreeSet::new()));
+        }
+    }
+    for (table, cols) in required.iter_mut() {
+        let Some(set) = cols.as_mut() else { continue };
+        let Some(provider) = ctx.table_provider(table) else {
+            continue;
+        };
+        let schema = provider.schema();
+        for f in schema.fields() {
+            if mentioned(f.name()) {
+                set.insert(f.name().clone());
+            }
+        }
+        if set.is_empty() {
+            if let Some(f) = schema.fields().first() {
+                set.insert(f.name().clone());
+            }
+        }
+    }
 }
 
 /// Column names an expression mentions.
@@ -401,6 +571,50 @@ mod tests {
                 t.name,
                 t.gather_sql
             );
+        }
+    }
+
+    /// A table reached only through a subquery EXPRESSION (the optimizer keeps
+    /// an `IN` under `OR` as an expression) must be gathered, with the columns
+    /// the subquery reads.
+    #[test]
+    fn a_table_only_inside_a_subquery_expression_is_gathered() {
+        let ctx = ctx_with_tables();
+        let p = plan_gather(
+            &ctx,
+            "SELECT i.name FROM items i WHERE i.id IS NULL OR i.id IN \
+             (SELECT o.id FROM others o WHERE o.price > 10)",
+        )
+        .unwrap();
+        let others = p
+            .tables
+            .iter()
+            .find(|t| t.name == "others")
+            .expect("others is read by the subquery and must be gathered");
+        if let Some(cols) = &others.columns {
+            for c in ["id", "price"] {
+                assert!(cols.contains(&c.to_string()), "{c} missing from {cols:?}");
+            }
+        }
+    }
+
+    /// The statement is re-bound as written: a CTE nothing references is still
+    /// bound, so what it names must exist in the gathered catalog.
+    #[test]
+    fn an_unreferenced_cte_still_gets_its_tables_and_columns() {
+        let ctx = ctx_with_tables();
+        let p = plan_gather(
+            &ctx,
+            "WITH w AS (SELECT o.price FROM others o) SELECT i.name FROM items i",
+        )
+        .unwrap();
+        let others = p
+            .tables
+            .iter()
+            .find(|t| t.name == "others")
+            .expect("others is named by the CTE body");
+        if let Some(cols) = &others.columns {
+            assert!(cols.contains(&"price".to_string()), "{cols:?}");
         }
     }
 
